@@ -143,6 +143,16 @@ impl Analysis {
         self.definitions.remove(ty);
     }
 
+    /// Is what is written at `span` also a usage of a symbol that is defined somewhere else than at `written_at`?
+    /// A name in the body of a macro is looked up again for every invocation, and may be another symbol every time.
+    pub fn is_used_by_symbol_defined_elsewhere(&self, span: Span, written_at: Span) -> bool {
+        self.definitions.iter().any(|(ty, definition)| {
+            matches!(ty, DefinitionType::Symbol(_))
+                && definition.location.as_ref().map(|l| l.span) != Some(written_at)
+                && definition.usages.iter().any(|usage| usage.span == span)
+        })
+    }
+
     /// Adds multiple symbol usages, for every part of the path
     /// For example, when adding a usage for 'foo.bar' it will add usages for 'foo' and for 'bar'.
     pub fn add_symbol_usage(
